@@ -69,18 +69,14 @@ theorem split_join_inverse (s sep : Bytes) : joinLoop sep true (split s sep) = s
     subst this; rfl
   · rw [joinLoop_splitGo]; simp
 
-/-- … and for a one byte separator the pieces are separator free, which makes Split the
-unique inverse of Join on separator free pieces -/
-theorem split_single_pieces_free (s : Bytes) (b : UInt8) : ∀ p ∈ split s [b], b ∉ p := by
+/-- PARTIAL. Full statement: for every non-empty separator, no piece of `split s sep` contains
+`sep` (so Split is the unique inverse of Join on separator free pieces). Proved for one byte
+separators only; for longer separators only the join identity above is proved. -/
+theorem split_pieces_free_partial (s : Bytes) (b : UInt8) : ∀ p ∈ split s [b], b ∉ p := by
   unfold split
   split
   · simp
   · exact splitGo_single_free b _ [] s (by omega) (by simp)
-
-/-- PARTIAL: the general statement "no piece of `split s sep` contains `sep`" for separators
-longer than one byte is not proved (only the one byte case above and the join identity). -/
-theorem split_pieces_free_partial (s : Bytes) (b : UInt8) : ∀ p ∈ split s [b], b ∉ p :=
-  split_single_pieces_free s b
 
 example : split [97, 44, 98, 44] [44] = [[97], [98], []] := by decide
 
